@@ -34,7 +34,7 @@ typedef struct {
 #define MAXLOG 400
 typedef struct {
         uint8_t *ctx; int st, last_pending, id;
-        uint8_t *msg; uint8_t *msg_base; uint8_t *msg_copy; size_t msglen, off; uint64_t total;
+        uint8_t *msg; uint8_t *msg_base; uint8_t *msg_copy; size_t msglen, off; uint64_t total; int reject_in_flight;
         ref_hash_t rh; int had_reject; uintptr_t tag;
         gbuf_t segs[24]; int nsegs;
 } slot_t;
@@ -175,6 +175,10 @@ static int handle_return(hist_t *h, void *ret, int by_flush, int submitter)
         if (s->st != ST_INFLIGHT) { viol(h, "C06", "duplicate-return", "context c%d handed back while the model does not have it in flight (model state %d)", ri, s->st); return -1; }
         s->st = -1; h->ninflight--;
         if (by_flush) h->res->returned_by_flush++; else if (submitter != ri) h->res->returned_by_other++;
+        /* every context in flight got there through an accepted submit: whoever hands it back, its error field must say so */
+        /* (a rejected submit aimed at this very context while it was in flight has written its code there: the documented channel of that call) */
+        int stale_ok = s->reject_in_flight; s->reject_in_flight = 0;
+        if (er != 0 && !stale_ok) viol(h, P("C11") ? "C11" : "C06", "valid-job-returned-with-error", "context c%d (accepted job) was handed back %s with error %d", ri, by_flush ? "by flush" : submitter == ri ? "by its own submit" : "by another context's submit", er);
         if (st & ISAL_HASH_CTX_STS_PROCESSING) viol(h, "C06", "returned-processing", "context c%d handed back with the PROCESSING bit set (status %d)", ri, st);
         if (s->last_pending) {
                 if (st != ISAL_HASH_CTX_STS_COMPLETE) viol(h, "C06", "not-complete-after-last", "context c%d handed back after LAST with status %d", ri, st);
@@ -290,6 +294,7 @@ static int inject_reject(hist_t *h)
         if (!rbuf_) out_count("rejects_invalid_flags_null_buffer", 1);
         if (do_submit(h, si, rbuf_, len, flags, &ret, &rc)) { report_fault(h, "rejected submit"); return -1; }
         h->res->ops++; h->res->rejects++; h->any_reject = 1; s->had_reject = 1;
+        if (inflight_before) s->reject_in_flight = 1;
         e->ret = ret ? slot_of(h, ret) : -1; e->rc = rc;
         int er = CTX_I32(s->ctx, a->off_error);
         trace(h, 0xbad00000u | (uint32_t) (er & 0xff) << 8 | (uint32_t) (rc & 0xff));
@@ -491,7 +496,7 @@ static void run_history(const hcfg_t *cfg, uint64_t case_seed, hres_t *res, uint
                         if (rrc) viol(h, "C06", "init-failed", "isal mgr init returned %d", rrc);
                         for (int i = 0; i < h->nslot; i++) if (h->s[i].st == ST_INFLIGHT) {
                                 a->ctx_init(h->s[i].ctx); *(uintptr_t *) (h->s[i].ctx + a->off_user) = h->s[i].tag;
-                                h->s[i].st = ST_FRESH; free_segs(&h->s[i]);
+                                h->s[i].st = ST_FRESH; h->s[i].reject_in_flight = 0; free_segs(&h->s[i]);
                         }
                         h->ninflight = 0;
                         out_count("manager_reinits_with_jobs_in_flight", 1);
